@@ -233,6 +233,7 @@ func run(c *fw.Ctx) {
 			c.Sample(map[string]interface{}{"state": strings.Split(s.Key, "\n"), "history": fsx.HistString(s.Hists[0]), "ops_checked_from_here": len(alphabet)})
 		}
 	}
+	runLiveAll(c)
 	c.R.Traces = c.R.Transitions
 	c.R.Distinct = c.R.Transitions
 }
@@ -249,6 +250,15 @@ func modelAfter(hist []treefs.Op) *treefs.Node {
 }
 
 func replay(w json.RawMessage) (*fw.Violation, error) {
+	var lw struct {
+		Live *liveWit `json:"live"`
+	}
+	if err := json.Unmarshal(w, &lw); err == nil && lw.Live != nil {
+		if m, step := runLive(lw.Live.Init, lw.Live.Hist); m != nil {
+			return &fw.Violation{Property: "C01", Clause: m.Clause, Signature: "C01/live/" + m.Kind + "/replay", Detail: fmt.Sprintf("step %d: %s", step, m.Detail)}, nil
+		}
+		return nil, nil
+	}
 	var wit witness
 	if err := json.Unmarshal(w, &wit); err != nil {
 		return nil, err
@@ -272,7 +282,7 @@ func replay(w json.RawMessage) (*fw.Violation, error) {
 
 func init() {
 	fw.Register(&fw.Check{ID: "C01", Level: "model_checking",
-		Rule: "states = every tree of depth<=2 over names {a,b} and the content pool, reached on a fresh real memfs by replaying a shortest history (thorough: up to 3 histories ending in different op kinds); from every state every op of the alphabet (16 Filespace methods x path spellings x contents/chunkings/buffer sizes x root/child/grandchild views, incl. escaping paths) is executed and compared with the tree model (result class, returned data, full tree walk, structural sanity); plus retained-result probes (read, then every mutator, then re-inspect). distinct = (state, op) transitions",
+		Rule: "states = every tree of depth<=2 over names {a,b} and the content pool, reached on a fresh real memfs by replaying a shortest history (thorough: up to 3 histories ending in different op kinds); from every state every op of the alphabet (16 Filespace methods x path spellings x contents/chunkings/buffer sizes x root/child/grandchild views, incl. escaping paths) is executed and compared with the tree model (result class, returned data, full tree walk, structural sanity); plus retained-result probes (read, then every mutator, then re-inspect); plus every history of 4 (quick) / 5 (thorough) operations from a 24-entry alphabet issued through a root filespace, a child view and a view of that view that are obtained ONCE and stay alive (the view's base being removed, re-created or replaced by a file through another handle), judged step by step against the model. distinct = (state, op) transitions",
 		Run: run, Replay: replay,
 		Assumptions: []string{"names {a,b}, depth<=2 states (ops may reach depth 3, those successors are checked but not expanded)", "listing order, sizes and times are not part of the model", "lexical path normalisation is the intended meaning of '..'"}})
 }
